@@ -600,6 +600,45 @@ step_harness!(raw_sieve_c2_clear, SieveT, SieveConfig {}, sc(Some(2), FULL2, 2, 
 st!(raw_sieve_c2_holdins_k0_w1, SieveT, SieveConfig {}, Some(2), FULL2, 2, false, false, false, OP_GET_HOLD_INSERT, 0, 1, false);
 st!(raw_sieve_c2_touch_ins_k0_w2, SieveT, SieveConfig {}, Some(2), FULL2, 2, false, false, false, OP_TOUCH_INSERT, 0, 2, false);
 
+// ---- S3-FIFO and w-TinyLFU instantiations of the same step scenarios (C05 / C13 / C18 speak of all five algorithms) ----
+// S3-FIFO: the ghost queue's std HashSet is out of reach (SSE2 hashbrown inside the prebuilt std): `HashSet::insert` is a
+// no-op, `GhostQueue::{contains,pop}` work on the VecDeque (see s3fifo.rs hook), `RandomState::new` returns fixed keys.
+mod s3stubs {
+    pub fn hs_insert<T: Eq + std::hash::Hash, S: std::hash::BuildHasher, A: std::alloc::Allocator>(_this: &mut std::collections::HashSet<T, S, A>, value: T) -> bool {
+        std::mem::forget(value);
+        true
+    }
+    pub fn random_state_fixed() -> std::hash::RandomState {
+        unsafe { std::mem::transmute::<(u64, u64), std::hash::RandomState>((1, 2)) }
+    }
+}
+macro_rules! step_harness_s3 {
+    ($name:ident, $sc:expr) => {
+        verif_harness! {
+            #[kani::stub(crate::inflight::InflightManager::take, crate::inflight::InflightManager::verif_take_none)]
+            #[kani::stub(std::collections::HashSet::insert, s3stubs::hs_insert)]
+            #[kani::stub(std::hash::RandomState::new, s3stubs::random_state_fixed)]
+            #[kani::stub(crate::eviction::s3fifo::GhostQueue::pop, crate::eviction::s3fifo::GhostQueue::verif_pop)]
+            #[kani::stub(crate::eviction::s3fifo::GhostQueue::contains, crate::eviction::s3fifo::GhostQueue::verif_contains)]
+            $name, 5, {
+                step::<S3FifoT>(S3FifoConfig { small_queue_capacity_ratio: 0.5, ghost_queue_capacity_ratio: 1.0, small_to_main_freq_threshold: 1 }, $sc);
+            }
+        }
+    };
+}
+step_harness_s3!(raw_s3fifo_c2_ins_k2_w1, Sc { lit: (1, false), ..sck(Some(2), FULL2, 2, false, false, true, OP_INSERT, 2) });
+step_harness_s3!(raw_s3fifo_c2_ins_k2_w2, Sc { lit: (2, false), ..sck(Some(2), FULL2, 2, false, false, true, OP_INSERT, 2) });
+step_harness_s3!(raw_s3fifo_c2_ins_k0_w2, Sc { lit: (2, false), ..sck(Some(2), FULL2, 2, false, false, true, OP_INSERT, 0) });
+step_harness_s3!(raw_s3fifo_c2_insdisk_k0_w2, Sc { lit: (2, false), ..sck(Some(2), FULL2, 2, false, false, true, OP_INSERT_DISK, 0) });
+step_harness_s3!(raw_s3fifo_c2_remove_k0, sck(Some(2), FULL2, 2, false, false, true, OP_REMOVE, 0));
+step_harness_s3!(raw_s3fifo_c2_clear, sc(Some(2), FULL2, 2, false, false, true, OP_CLEAR));
+step_harness_s3!(raw_s3fifo_c2_hold_ins_k2_w1, Sc { lit: (1, false), ..sck(Some(2), FULL2, 2, true, false, false, OP_INSERT, 2) });
+step_harness_s3!(raw_s3fifo_c2_touch_ins_k0_w2, Sc { lit: (2, false), ..sck(Some(2), FULL2, 2, false, false, false, OP_TOUCH_INSERT, 0) });
+// w-TinyLFU: smallest legal sketch (the sketch's accuracy is not the subject; it only orders window vs probation victims)
+const LFU_CFG: LfuConfig = LfuConfig { window_capacity_ratio: 0.4, protected_capacity_ratio: 0.4, cmsketch_eps: 0.5, cmsketch_confidence: 0.5 };
+step_harness!(raw_lfu_c2_ins_k2_w1, LfuT, LFU_CFG, Sc { lit: (1, false), ..sck(Some(2), FULL2, 2, false, false, true, OP_INSERT, 2) });
+step_harness!(raw_lfu_c2_clear, LfuT, LFU_CFG, sc(Some(2), FULL2, 2, false, false, true, OP_CLEAR));
+
 // =====================================================================================================================
 // Shard-level harness on a stack-resident RawCacheShard: everything symbolic (capacity, weights, keys, operations).
 // =====================================================================================================================
